@@ -52,6 +52,7 @@ type obs struct {
 	readAhead  bool // repo HTTP client returned a connection holding read-ahead bytes
 
 	cDone, sDone atomic.Bool
+	hsDone       atomic.Bool // the client holds an established connection
 	stalled      string
 }
 
@@ -121,9 +122,84 @@ func (p plan) glueIndex() int {
 	return -1
 }
 
-func run(p plan, srv netio.StreamServer) *obs {
+// clients are the repository's client objects of one configuration. Like the service does, one
+// object serves every session of a case (TestInterleaved) - or just one (TestHandshake).
+type clients struct {
+	q    *queueClient
+	s5   netio.StreamClient
+	http *httpproxy.ProxyClient
+	ss   *ssnone.StreamClient
+}
+
+// queueClient is the inner netio.StreamClient of shared client objects: every DialStream takes the
+// next prepared transport end.
+type queueClient struct {
+	mu    sync.Mutex
+	conns []netio.Conn
+}
+
+func (q *queueClient) push(c netio.Conn) { q.mu.Lock(); q.conns = append(q.conns, c); q.mu.Unlock() }
+
+func (q *queueClient) NewStreamDialer() (netio.StreamDialer, netio.StreamDialerInfo) {
+	return q, netio.StreamDialerInfo{Name: "xnet", NativeInitialPayload: true}
+}
+
+func (q *queueClient) DialStream(_ context.Context, _ conn.Addr, payload []byte) (netio.Conn, error) {
+	q.mu.Lock()
+	if len(q.conns) == 0 {
+		q.mu.Unlock()
+		return nil, errors.New("harness: no transport prepared")
+	}
+	c := q.conns[0]
+	q.conns = q.conns[1:]
+	q.mu.Unlock()
+	return innerClient{c}.DialStream(context.Background(), conn.Addr{}, payload)
+}
+
+func newClients(p plan) (*clients, error) {
+	cl := &clients{q: &queueClient{}}
+	switch p.Proto {
+	case "socks5":
+		var authMsg []byte
+		if p.CliAuth {
+			authMsg = socks5.UserInfo{Username: p.Pres[0].U, Password: p.Pres[0].P}.AppendAuthMsg(nil)
+		}
+		cl.s5 = (&socks5.StreamClientConfig{Name: "c07", InnerClient: cl.q, AuthMsg: authMsg}).NewStreamClient()
+	case "http":
+		cfg := httpproxy.ClientConfig{Name: "c07", InnerClient: cl.q}
+		if p.CliAuth {
+			cfg.Username, cfg.Password, cfg.UseBasicAuth = p.Pres[0].U, p.Pres[0].P, true
+		}
+		var err error
+		if cl.http, err = cfg.NewProxyClient(); err != nil {
+			return nil, fmt.Errorf("NewProxyClient: %w", err)
+		}
+	default:
+		cl.ss = (&ssnone.StreamClientConfig{Name: "c07", InnerClient: cl.q}).NewStreamClient()
+	}
+	return cl, nil
+}
+
+// session is one connection of a case: a transport pair, a client goroutine and a server goroutine.
+type session struct {
+	p        plan
+	o        *obs
+	cx, sx   *xnet.Conn
+	wg       sync.WaitGroup
+	gate     chan struct{} // if not nil the client waits here between handshake and application traffic
+	released bool
+}
+
+// start launches both peers of one session. shared may hold client objects reused across sessions
+// (nil: fresh objects). Must be called inside a synctest bubble.
+func start(p plan, srv netio.StreamServer, shared *clients, gated bool) *session {
 	o := &obs{}
+	s := &session{p: p, o: o}
+	if gated {
+		s.gate = make(chan struct{})
+	}
 	cx, sx := xnet.Pair()
+	s.cx, s.sx = cx, sx
 	sx.SetReadPlan(p.SrvPlan, 0, p.SrvCoalesce)
 	cx.SetReadPlan(p.CliPlan, 0, p.CliCoalesce)
 	if p.Glue {
@@ -183,10 +259,20 @@ func run(p plan, srv netio.StreamServer) *obs {
 		ctx := context.Background()
 		var cc netio.Conn
 		first := c2s // what the client still has to write itself after the handshake
+		cl := shared
+		if p.Peer == "repo" {
+			if cl == nil {
+				var err error
+				if cl, err = newClients(p); err != nil {
+					o.cliErr = err
+					return
+				}
+			}
+			cl.q.push(cEnd)
+		}
 		switch {
 		case p.Proto == "ssnone" && p.Peer == "repo":
-			cl := (&ssnone.StreamClientConfig{Name: "c07", InnerClient: innerClient{cEnd}}).NewStreamClient()
-			cc, o.cliErr = cl.DialStream(ctx, p.Target.connAddr(), init)
+			cc, o.cliErr = cl.ss.DialStream(ctx, p.Target.connAddr(), init)
 			o.cliOK = o.cliErr == nil
 		case p.Proto == "ssnone":
 			// Shadowsocks "none": the SOCKS5 address followed by the payload, in one segment
@@ -194,15 +280,11 @@ func run(p plan, srv netio.StreamServer) *obs {
 				cc, o.cliOK = cEnd, true
 			}
 		case p.Proto == "socks5" && p.Peer == "repo":
-			var authMsg []byte
-			if p.CliAuth {
-				authMsg = socks5.UserInfo{Username: p.Pres[0].U, Password: p.Pres[0].P}.AppendAuthMsg(nil)
-			}
 			switch {
 			case p.Cmd == socks5.CmdConnect:
-				cl := (&socks5.StreamClientConfig{Name: "c07", InnerClient: innerClient{cEnd}, AuthMsg: authMsg}).NewStreamClient()
-				cc, o.cliErr = cl.DialStream(ctx, p.Target.connAddr(), init)
+				cc, o.cliErr = cl.s5.DialStream(ctx, p.Target.connAddr(), init)
 			case p.CliAuth:
+				authMsg := socks5.UserInfo{Username: p.Pres[0].U, Password: p.Pres[0].P}.AppendAuthMsg(nil)
 				o.cliBnd, o.cliErr = socks5.ClientRequestUsernamePassword(cEnd, authMsg, p.Cmd, p.Target.connAddr())
 			default:
 				o.cliBnd, o.cliErr = socks5.ClientRequest(cEnd, p.Cmd, p.Target.connAddr())
@@ -216,16 +298,7 @@ func run(p plan, srv netio.StreamServer) *obs {
 				first = append([][]byte{init}, c2s...)
 			}
 		case p.Proto == "http" && p.Peer == "repo":
-			cfg := httpproxy.ClientConfig{Name: "c07", InnerClient: innerClient{cEnd}}
-			if p.CliAuth {
-				cfg.Username, cfg.Password, cfg.UseBasicAuth = p.Pres[0].U, p.Pres[0].P, true
-			}
-			cl, err := cfg.NewProxyClient()
-			if err != nil {
-				o.cliErr = fmt.Errorf("NewProxyClient: %w", err)
-				return
-			}
-			cc, o.cliErr = cl.DialStream(ctx, p.Target.connAddr(), init)
+			cc, o.cliErr = cl.http.DialStream(ctx, p.Target.connAddr(), init)
 			o.cliOK = o.cliErr == nil
 			if o.cliOK {
 				_, plain := cc.(tcpConn)
@@ -247,27 +320,64 @@ func run(p plan, srv netio.StreamServer) *obs {
 			// refused, or a request without a stream (UDP ASSOCIATE: closing ends the association)
 			return
 		}
+		o.hsDone.Store(true)
+		if s.gate != nil {
+			<-s.gate // other sessions of the case run their handshakes now
+		}
 		o.cliPumped = true
 		o.cliRecv, o.cliRecvErr, _ = pump(cc, first, p.CliBuf, p.CliWriteTo)
 		_ = cc.Close()
 	}
 
-	var wg sync.WaitGroup
-	wg.Go(server)
-	wg.Go(client)
+	s.wg.Go(server)
+	s.wg.Go(client)
+	return s
+}
+
+// release lets the client of a gated session go on to its application traffic.
+func (s *session) release() {
+	if s.gate != nil && !s.released {
+		s.released = true
+		close(s.gate)
+	}
+}
+
+// handshakeSettled is called after synctest.Wait following start: the client has either finished
+// (refused) or holds its connection; anything else is a handshake in which both peers wait forever.
+func (s *session) handshakeSettled() {
+	if !s.o.hsDone.Load() && !s.o.cDone.Load() && s.o.stalled == "" {
+		s.o.stalled = fmt.Sprintf("during the handshake: clientDone=%v serverDone=%v", s.o.cDone.Load(), s.o.sDone.Load())
+		s.cx.Close()
+		s.sx.Close()
+	}
+}
+
+// finish waits for quiescence, detects a stall, joins the goroutines and collects the wire bytes.
+func (s *session) finish() *obs {
+	o := s.o
+	s.release()
 	synctest.Wait()
 	if !o.cDone.Load() || !o.sDone.Load() {
 		// every goroutine is blocked on the owned transport and nobody will ever write again
-		o.stalled = fmt.Sprintf("clientDone=%v serverDone=%v", o.cDone.Load(), o.sDone.Load())
-		cx.Close()
-		sx.Close()
+		if o.stalled == "" {
+			o.stalled = fmt.Sprintf("clientDone=%v serverDone=%v", o.cDone.Load(), o.sDone.Load())
+		}
+		s.cx.Close()
+		s.sx.Close()
 	}
-	wg.Wait()
-	frames := sx.Written()
+	s.wg.Wait()
+	frames := s.sx.Written()
 	for i := 0; i < o.hsFrames && i < len(frames); i++ {
 		o.srvWire = append(o.srvWire, frames[i]...)
 	}
 	return o
+}
+
+// run executes a single-session case.
+func run(p plan, srv netio.StreamServer) *obs {
+	s := start(p, srv, nil, false)
+	synctest.Wait()
+	return s.finish()
 }
 
 // ---------------------------------------------------------------------------------------------
